@@ -46,7 +46,9 @@ def depth_families(N):
     # polynomial-cost families get a smaller N (a 400-way join is minutes of legitimate planning work, not a hang)
     caps = {'join chain': 120 if N <= 400 else 300, 'nested scalar subqueries': 60, 'UNION chain': min(N, 1000)}
     for name, f in fam.items():
-        for n in range(1, min(N, caps.get(name, N)) + 1):
+        top = min(N, caps.get(name, N))
+        # every n up to 400, then every 25th: thresholds (stack depth, size gates) are monotone in n, the step only coarsens where one is located
+        for n in list(range(1, min(top, 400) + 1)) + list(range(425, top + 1, 25)):
             out.append((name, n, f(n)))
     if N < 1000:
         # sentinels beyond the quick bound, so the quick tier also exercises the deep-plan regime of every chain that reaches the planner
@@ -81,6 +83,8 @@ def mistyped():
 
 def _work(args):
     fam, stmts, prop, encoded = args
+    import time as _t
+    t0 = _t.time()
     out = {'evaluations': 0, 'counts': {}, 'violations': [], 'classes': set(), 'errors': [], 'samples': [], 'retime': []}
     try:
         d = sqldiff.get_driver({'name': 'default', 'env': {}})
@@ -91,7 +95,7 @@ def _work(args):
 
         def run_batch(batch):
             try:
-                r = d.call({'op': 'sql_many', 'db': 'd', 'sqls': batch}, timeout=45 if len(batch) == 1 else 150)
+                r = d.call({'op': 'sql_many', 'db': 'd', 'sqls': batch}, timeout=SLOW_MS / 1000.0 + 5 if len(batch) == 1 else 150)
                 if not r.get('ok'):
                     raise RuntimeError(str(r))
                 return r['res']
@@ -99,12 +103,12 @@ def _work(args):
                 ensure()
                 if len(batch) == 1:
                     return [['DIED:%r' % (e,), -1]]
-                # re-run one by one (each with its own 45 s limit) to name the statement
+                # re-run one by one (each with its own limit) to name the statement
                 res = []
                 for q in batch:
                     res += run_batch([q])
                 return res
-        step = 25 if fam.startswith('depth') else 200
+        step = 5 if fam.startswith('depth') else 200
         for i in range(0, len(stmts), step):
             batch = stmts[i:i + step]
             res = run_batch(batch)
@@ -142,6 +146,7 @@ def _work(args):
     except Exception:
         out['errors'].append(traceback.format_exc())
     out['classes'].discard(b'')
+    out['secs'] = (fam, len(stmts), round(_t.time() - t0, 1))
     return out
 
 
@@ -170,23 +175,31 @@ def run(rep):
         tasks.append(('byte strings', bs[i:i + 2000], rep.prop, True))
     # (c) mistyped / unsupported statements
     ms = mistyped()
+    slow_first = [q for q in ms if q in KNOWN_HUGE]
+    for q in slow_first:
+        tasks.insert(0, ('mistyped and unsupported', [q], rep.prop, False))      # tens of seconds each: alone and first
+    ms = [q for q in ms if q not in KNOWN_HUGE]
     for i in range(0, len(ms), 20):
         tasks.append(('mistyped and unsupported', ms[i:i + 20], rep.prop, False))
     # (d) depth families, every n in 1..N
     byfam = {}
     for name, n, sql in depth_families(N):
         byfam.setdefault(name, []).append(sql)
+    dtasks = []
     for name, sqls in byfam.items():
-        for i in range(0, len(sqls), 100):
-            tasks.append(('depth: ' + name, sqls[i:i + 100], rep.prop, False))
+        k = max(1, len(sqls) // 20)
+        for i in range(k):
+            dtasks.append(('depth: ' + name, sqls[i::k], rep.prop, False))      # interleaved: every task gets small and large n alike
+    tasks = tasks[:len(slow_first)] + dtasks + tasks[len(slow_first):]              # the slow statements and families first
     rep.rule = ('(a) every token string of length <= %d over a %d-token SQL alphabet (%d statements); (b) every string of <= %d bytes over 12 hostile bytes, bare and after SELECT; (c) %d mistyped / '
-                'unsupported / boundary statements; (d) %d parametric depth families (nesting, chains, long literals, IN lists, CASE arms, joins, CTEs), every n in 1..%d (quick: plus n = 1000 and 2000 for the five chains that reach the planner); each executed against a '
+                'unsupported / boundary statements; (d) %d parametric depth families (nesting, chains, long literals, IN lists, CASE arms, joins, CTEs), every n in 1..min(%d, 400) and every 25th above (quick: plus n = 1000 and 2000 for the five chains that reach the planner); each executed against a '
                 'two-table catalog in the real engine (subprocess, default stacks); oracle: Ok or Err within %d ms (a statement slower than that inside the 12-process pool is re-timed alone before it counts), no panic, the process survives; distinct_nontrivial = distinct statements with a '
                 'definite Ok/Err outcome' % (L, len(TOKENS), len(toks), 3 if quick else 4, len(mistyped()), len(byfam), N, SLOW_MS))
-    retime = []
+    retime, slowest = [], []
     with mp.Pool(min(12, os.cpu_count() or 4), initializer=sqldiff._init) as pool:
         for out in pool.imap_unordered(_work, tasks):
             retime += out['retime']
+            slowest.append(out['secs'])
             rep.evaluations += out['evaluations']
             rep.merge_counts(out['counts'])
             rep.nontrivial |= out['classes']
@@ -201,6 +214,7 @@ def run(rep):
                     rep.known_hit(kid, ex)
                 else:
                     rep.violation({'property': rep.prop, 'kind': 'crash', 'why': 'unlisted finding ' + kid, 'example': ex})
+    rep.extra['slowest_tasks'] = sorted(slowest, key=lambda x: -x[2])[:6]
     # statements that were slow inside the pool, again, one at a time with nothing else of this check running
     if retime:
         d = drv.Driver()
